@@ -96,9 +96,31 @@ def rejection_sample_inmem(
     max_posterior_samples=None,
     n_linear_samples=1,
     return_all_logprobs=False,
+    n_prior_samples=None,
+    randomize_prior_order=False,
 ):
+    n_total_samples = len(prior_samples_batch)
+    if n_prior_samples is None:
+        n_prior_samples = n_total_samples
+    elif n_prior_samples > n_total_samples:
+        raise ValueError(
+            "Number of prior samples to use is greater than the "
+            "number of prior samples passed. "
+            f"n_prior_samples={n_prior_samples} vs. "
+            f"n_total_samples={n_total_samples}"
+        )
+
     if max_posterior_samples is None:
-        max_posterior_samples = len(prior_samples_batch)
+        max_posterior_samples = n_prior_samples
+
+    # use the same prior samples, in the same order, as the cache-file code path
+    if randomize_prior_order:
+        idx = rng.choice(n_total_samples, size=n_prior_samples, replace=False)
+    else:
+        idx = slice(0, n_prior_samples)
+    prior_samples_batch = prior_samples_batch[idx]
+    if ln_prior is not None and not isinstance(ln_prior, bool):
+        ln_prior = ln_prior[idx]
 
     # compute likelihoods
     lls = marginal_ln_likelihood_inmem(joker_helper, prior_samples_batch)
@@ -138,8 +160,10 @@ def iterative_rejection_inmem(
     growth_factor=128,
     n_linear_samples=1,
     max_prior_samples=None,
+    randomize_prior_order=False,
 ):
-    n_total_samples = len(prior_samples_batch)
+    n_library_samples = len(prior_samples_batch)
+    n_total_samples = n_library_samples
     if max_prior_samples is not None:
         # never process more than the requested number of prior samples
         n_total_samples = min(n_total_samples, int(max_prior_samples))
@@ -163,7 +187,11 @@ def iterative_rejection_inmem(
             f"limited to, {n_total_samples} samples."
         )
 
-    all_idx = np.arange(0, n_total_samples, 1)
+    if randomize_prior_order:
+        # Generate a random ordering for the samples (as the cache-file code path)
+        all_idx = rng.choice(n_library_samples, size=n_total_samples, replace=False)
+    else:
+        all_idx = np.arange(0, n_total_samples, 1)
 
     all_marg_lls = np.array([])
     start_idx = 0
@@ -171,7 +199,8 @@ def iterative_rejection_inmem(
         logger.log(1, f"iteration {i}, computing {n_process} likelihoods")
 
         marg_lls = marginal_ln_likelihood_inmem(
-            joker_helper, prior_samples_batch[start_idx : start_idx + n_process]
+            joker_helper,
+            prior_samples_batch[all_idx[start_idx : start_idx + n_process]],
         )
         all_marg_lls = np.concatenate((all_marg_lls, marg_lls))
 
